@@ -500,6 +500,9 @@ func (e *CoreExtension) filterUrlEncode(value interface{}, args ...interface{}) 
 
 // Function implementations
 
+// maxRangeItems bounds the sequence that range() builds in memory
+const maxRangeItems = 10000000
+
 func (e *CoreExtension) functionRange(args ...interface{}) (interface{}, error) {
 	// Handle different argument counts (1, 2, or 3 args)
 	var start, end, step int
@@ -547,26 +550,30 @@ func (e *CoreExtension) functionRange(args ...interface{}) (interface{}, error) 
 		return nil, errors.New("step cannot be zero")
 	}
 
+	// The number of items (the end value is inclusive), computed in unsigned arithmetic so that
+	// neither the distance nor the running value can overflow
+	var distance, stride uint64
+	if step > 0 {
+		if start > end {
+			return []interface{}{}, nil
+		}
+		distance, stride = uint64(end)-uint64(start), uint64(step)
+	} else {
+		if start < end {
+			return []interface{}{}, nil
+		}
+		distance, stride = uint64(start)-uint64(end), -uint64(step)
+	}
+	if distance/stride >= maxRangeItems {
+		return nil, fmt.Errorf("range of more than %d items", maxRangeItems)
+	}
+	count := int(distance/stride) + 1
+
 	// Create the result as a slice of interface{} values explicitly
 	// Ensure it's always []interface{} for consistent handling in for loops
-	result := make([]interface{}, 0)
-
-	// For compatibility with existing tests, keep the end index inclusive
-	if step > 0 {
-		// For positive step, include the end value (end is inclusive)
-		for i := start; i <= end; i += step {
-			result = append(result, i)
-		}
-	} else {
-		// For negative step, include the end value (end is inclusive)
-		for i := start; i >= end; i += step {
-			result = append(result, i)
-		}
-	}
-
-	// Ensure we're returning a non-nil slice that can be used in loops
-	if len(result) == 0 {
-		return []interface{}{}, nil
+	result := make([]interface{}, count)
+	for k := 0; k < count; k++ {
+		result[k] = start + k*step
 	}
 
 	return result, nil
